@@ -7,8 +7,6 @@ import (
 	"encoding/json"
 	"fmt"
 	"math/big"
-	"os"
-	"path/filepath"
 	"sort"
 	"strconv"
 	"strings"
@@ -439,7 +437,7 @@ func c16GenSpecial(r *Rand) string {
 func c16Gen(r *Rand, tier string) []string {
 	n := 4000
 	if tier == "thorough" {
-		n = 150000
+		n = 400000
 	}
 	var out []string
 	for i := 0; i < n; i++ {
@@ -544,28 +542,6 @@ func c16Stats(cases []string) map[string]int {
 	return st
 }
 
-// c16Corpus loads /verif/corpus/C16/*.case (located relative to this executable,
-// work/bin/corr_C16): past failing inputs always run first.
-func c16Corpus() []string {
-	exe, err := os.Executable()
-	if err != nil {
-		return nil
-	}
-	files, _ := filepath.Glob(filepath.Join(filepath.Dir(exe), "..", "..", "corpus", "C16", "*.case"))
-	sort.Strings(files)
-	var out []string
-	for _, f := range files {
-		b, _ := os.ReadFile(f)
-		for _, l := range strings.Split(string(b), "\n") {
-			l = strings.TrimSpace(l)
-			if l != "" && !strings.HasPrefix(l, "#") {
-				out = append(out, strings.TrimPrefix(l, "C16 "))
-			}
-		}
-	}
-	return out
-}
-
 func init() {
-	Register("C16", &Prop{Gen: c16Gen, Run: c16Run, Stats: c16Stats, Corpus: c16Corpus()})
+	Register("C16", &Prop{Gen: c16Gen, Run: c16Run, Stats: c16Stats})
 }
